@@ -534,6 +534,7 @@ type Contract struct {
 	Transparent bool
 	Trusted     bool
 	ArithWrap   bool
+	Logs        bool // may perform API calls (extends the ghost call log)
 	NoHeap      bool // external: does not touch the heap at all (results havocked)
 	Requires    []*Clause
 	Ensures     []*Clause
@@ -588,7 +589,7 @@ type ContractFile struct {
 var clauseKeywords = map[string]bool{
 	"import": true, "func": true, "pure": true, "transparent": true, "trusted": true, "arith": true,
 	"requires": true, "ensures": true, "modifies": true, "loop": true, "let": true, "spec": true,
-	"lemma": true, "reads": true, "noheap": true, "params": true, "end": true,
+	"lemma": true, "reads": true, "noheap": true, "logs": true, "params": true, "end": true,
 }
 
 // parseTagsLabel strips an optional "[C01,C02]" and an optional "label:" prefix.
@@ -696,6 +697,8 @@ func ParseContractText(path, pkgPath, text string, external bool) (*ContractFile
 			}
 		case "trusted":
 			cur.Trusted = true
+		case "logs":
+			cur.Logs = true
 		case "noheap":
 			cur.NoHeap = true
 			cur.ModAny = false
